@@ -66,6 +66,7 @@ func C11(c *run.Ctx) int {
 		return id, c11Eval(c, id, prog, run.NewRng(seed^0x11), perProg)
 	})
 	c11Templates(c)
+	c11ScopeAndSwizzleGrid(c)
 	return c.Finish("valid generated programs, each subjected to single rule-breaking injections (undeclared identifier / function / type / member, call arity and argument type, discarded @must_use result, false const_assert incl. float and builtin conditions, @group without @binding and vice versa, array size 0 / negative (literal and const), swizzle mixing or exceeding width, missing @workgroup_size, constant division by zero in several const contexts, missing semicolon, removed closing delimiter) at random applicable sites, a third of them re-encoded with CR LF line endings behind a multi-line block comment (nested blocks, continuing blocks, helpers, entry points, const initialisers, builtin arguments); "+
 		"oracle: the one-call compile API must return an error and no output; the reported position must lie inside the source, inside the enclosing module-scope declaration for semantic errors, and at the first token that cannot continue the grammar for syntax errors; "+
 		"plus a fixed grid of ill-typed / undeclared calls (6 forms) x 23 statement positions (let, for init / condition / update, while, if, switch selector and body, continuing, break-if, index, nested argument, ...) x callee declared before / after the caller, each next to its well-formed sibling that must compile; "+
